@@ -407,6 +407,7 @@ def r6(ctx):
     ctx.check("ExecutionBuilder::add_live", len(cs) == 1 and render(cs[0][2][-1]) == "request_timeout" and lb.guard(
         [bi for bi, t, tm in lb.real_calls() if tm == cs[0]][0]) == frozenset([frozenset()]),
         "the live manager gets exactly the timeout its caller configured", got=[render(c[2][-1]) for c in cs], key="timeout")
+    common.channel_passthrough(ctx)
     ctx.floor("wiring", len(oks) + len(inits) + len(fwd) + len(cs), 4)
 
 
